@@ -23,7 +23,7 @@ var (
 	c08Bound  = flag.Int("bound", 2, "preemption bound of the exhaustive part")
 	c08Cap    = flag.Int("cap", 300, "cap on explored schedules per request set")
 	c08Random = flag.Int("random", 40, "random schedules per request set beyond the bound")
-	c08Kinds  = flag.String("kinds", "dup,inbox,like,follow,add,outbox,forward2,add2,remove2,likebad", "request-set kinds")
+	c08Kinds  = flag.String("kinds", "dup,inbox,like,follow,add,outbox,forward2,add2,remove2,likebad,accept2", "request-set kinds")
 )
 
 type abortSignal struct{}
@@ -447,6 +447,17 @@ func genReqSet(r *rng, kind string, k int) reqSet {
 				b["object"] = jmap{"type": "Note", "content": "no id"}
 			}
 			rs.reqs = append(rs.reqs, outboxScenario("conc:likebad", w, cfg, b))
+		}
+	case "accept2": // Accepts of two stored Follows of one actor: both peers end up in following
+		for i := 0; i < 2; i++ {
+			peer := remoteActors[i]
+			fid := fmt.Sprintf("%s/follows/c%d-%d", local, k, i)
+			f := jmap{"@context": asCtx, "type": "Follow", "id": fid, "actor": alice, "object": peer}
+			w.Store[fid] = f
+			w.Owned[fid] = true
+			a := inboxAct("Accept", i, peer)
+			a["object"] = jmap{"type": "Follow", "id": fid, "actor": alice, "object": peer}
+			rs.reqs = append(rs.reqs, inboxScenario("conc:accept2", w, cfg, a))
 		}
 	case "forward2": // two forwardable activities naming two owned collections in opposite orders
 		for i := 0; i < 2; i++ {
